@@ -1103,7 +1103,7 @@ def run(ck):
             return
         ck.extra["draws_before_any_import_all"] = w.init.get("draws_so_far")
         stream_import(ck, drv, tab, w)
-        n = ck.budget(300, 10000)
+        n = ck.budget(300, 5000)
         s = ck.stream("histories", f"{n} " + HIST_RULE)
         hists = [gen_history(ck.rng) for _ in range(n)]
         kinds = {}
